@@ -818,7 +818,13 @@ def c05_docs():
 
 
 # ============================================================================ C20
-def _count_calls(md, src):
+class _CostCapExceeded(BaseException):
+    pass
+
+
+def _count_calls(md, src, limit=None):
+    """python-level calls into markdown_it during render(src); with a limit the run is abandoned as soon as the count
+    passes it (the verdict 'more than limit calls' is then exact and no time is spent on the rest)"""
     import sys
 
     n = [0]
@@ -826,10 +832,15 @@ def _count_calls(md, src):
     def prof(frame, event, arg):
         if event == "call" and "markdown_it" in frame.f_code.co_filename:
             n[0] += 1
+            if limit is not None and n[0] > limit:
+                sys.setprofile(None)
+                raise _CostCapExceeded()
 
     sys.setprofile(prof)
     try:
         md.render(src)
+    except _CostCapExceeded:
+        pass
     finally:
         sys.setprofile(None)
     return n[0]
@@ -856,9 +867,10 @@ def c20_cost(state, cfg, case):
     unit = max(1, len(gen(10)) // 10)
     fails = []
     costs = []
+    cap = 12 * int(md.options["maxNesting"])
     for mult in (1, 2, 4):
         src = gen(max(1, (L * mult) // unit))
-        c = _count_calls(md, src)
+        c = _count_calls(md, src, limit=2 * cap * max(1, len(src)))  # well past the per-character cap: the case is decided
         costs.append((len(src), c))
     per_char = [c / max(1, l) for l, c in costs]
     # doubling never much more than doubles the work; work per character bounded
